@@ -50,6 +50,12 @@ from mpservice.threading import Thread
 MODEL = 'servlet'
 FOREVER = 1e6
 
+# The adversarial allocator collects garbage at every `id()` call.  Everything imported so far is
+# permanent: take it out of the collector's sight so that a full collection only walks what a run
+# allocated (27 ms -> well under 1 ms per collection).
+gc.collect()
+gc.freeze()
+
 
 # ----------------------------------------------------------------------------------------------
 # exceptions of the failure plan, value code, reference denotation
